@@ -255,11 +255,36 @@ def replay_in_fresh_process(prop_id, path):
     return sigs, out
 
 
+def call_in_child(fn, *args):
+    ctx = multiprocessing.get_context('fork')
+    r, w = ctx.Pipe(False)
+
+    def target():
+        try:
+            w.send(('ok', fn(*args)))
+        except BaseException as e:
+            w.send(('err', repr(e) + traceback.format_exc()))
+    p = ctx.Process(target=target)
+    p.start()
+    if not r.poll(300):
+        p.kill()
+        raise HarnessError('child computation timed out')
+    kind, val = r.recv()
+    p.join()
+    if kind != 'ok':
+        raise HarnessError('child computation failed: %s' % val)
+    return val
+
+
 def run_check(prop, tier, seed, nworkers, total=None, wall_cap=None,
               write_evidence=True, quiet=False):
     """Run a property's plan; returns exit code."""
     t0 = time.time()
-    total = total if total is not None else prop.RUNS[tier]
+    if total is None:
+        # computed in a forked child: the parent must not touch OpenSSL (or
+        # start threads) before forking its workers
+        total = call_in_child(prop.total, tier, seed) \
+            if hasattr(prop, 'total') else prop.RUNS[tier]
     wall_cap = wall_cap or prop.WALL_CAP[tier]
     deadline = t0 + wall_cap
     nworkers = max(1, min(nworkers, total))
@@ -336,11 +361,31 @@ def run_check(prop, tier, seed, nworkers, total=None, wall_cap=None,
         lines.append('VIOLATION property=%s replay=%s signature=%s%s'
                      % (prop.ID, path, sig, note))
         exit_code = 1
-    # known findings are demonstrated by their stored replay every run
-    for sig, k in known_sigs.items():
-        if sig not in reported and k.get('replay'):
-            lines.append('KNOWN-FINDING: property=%s %s'
-                         % (prop.ID, k.get('description', sig)))
+    # stored replays: a 'known' finding is demonstrated on every run; a
+    # 'fixed' one is a regression scenario and suppresses nothing
+    regress = 0
+    for k in known:
+        if not k.get('replay'):
+            continue
+        path = os.path.join(VERIF, k['replay'])
+        sigs, out = replay_in_fresh_process(prop.ID, path)
+        regress += 1
+        if out.returncode not in (0, 1):
+            herr.append('stored replay %s failed to run: %s'
+                        % (k['replay'], out.stdout[-300:] + out.stderr[-300:]))
+            continue
+        if k.get('status') == 'known':
+            if k['signature'] in sigs and k['signature'] not in reported:
+                reported.add(k['signature'])
+                lines.append('KNOWN-FINDING: property=%s %s'
+                             % (prop.ID, k.get('description', '')))
+        elif k['signature'] in sigs and k['signature'] not in reported:
+            reported.add(k['signature'])
+            n_viol += 1
+            lines.append('VIOLATION property=%s replay=%s signature=%s '
+                         '(regression of a fixed finding)'
+                         % (prop.ID, path, k['signature']))
+            exit_code = 1
     if herr:
         for h in herr[:5]:
             lines.append('HARNESS-ERROR %s' % h.strip().splitlines()[-1])
@@ -372,6 +417,7 @@ def run_check(prop, tier, seed, nworkers, total=None, wall_cap=None,
         cov['workers'] = nworkers
         cov['planned_runs'] = total
         cov['cut_short_by_wall_cap'] = cut_short
+        cov['stored_replays_rerun'] = regress
         cov['known_findings_reported'] = sorted(
             s for s in reported if s in known_sigs)
         os.makedirs(os.path.join(VERIF, 'evidence'), exist_ok=True)
